@@ -6,6 +6,7 @@ import LexVerif.Model.Ops.ParseInt
 import LexVerif.Model.Ops.FormatError
 import LexVerif.Model.Ops.WriteInt
 import LexVerif.Model.Ops.ParseFloat
+import LexVerif.Model.Ops.ParseAlgos
 /-!
 # Driver — line-protocol evaluator of the Lean models and specifications
 
@@ -165,14 +166,14 @@ def specOf (feats : Features) (t : List String) : String :=
 Each `Model/Ops/*.lean` exposes `handle : Features → List String → Option String`. -/
 def modelHandlers : List (Features → List String → Option String) :=
   [LexVerif.Model.Ops.ParseInt.handle, LexVerif.Model.Ops.FormatError.handle, LexVerif.Model.Ops.WriteInt.handle,
-   LexVerif.Model.Ops.ParseFloat.handle]
+   LexVerif.Model.Ops.ParseFloat.handle, LexVerif.Model.Ops.ParseAlgos.handle]
 
 def modelOf (feats : Features) (t : List String) : String :=
   (modelHandlers.findSome? (fun h => h feats t)).getD "-"
 
 /-- specification handlers consulted before `specOf` (configuration errors pre-empt value specifications) -/
 def specHandlers : List (Features → List String → Option String) :=
-  [LexVerif.Model.Ops.FormatError.spec]
+  [LexVerif.Model.Ops.FormatError.spec, LexVerif.Model.Ops.ParseAlgos.spec]
 
 def specOf' (feats : Features) (t : List String) : String :=
   (specHandlers.findSome? (fun h => h feats t)).getD (specOf feats t)
